@@ -32,12 +32,18 @@ func FullProfile(depth int) Profile {
 	return Profile{MaxDecls: 6, MaxCalls: 8, MaxDepth: depth, NamedComposite: true, Ext: true, Q: true, Nested: true, TestFile: true, Forms: true, Curried: true, Unformatted: true, UserFuncs: true, Concurrency: true, FuncParamForms: true}
 }
 
+type prevCall struct {
+	pkg, plugin, exact, sfx string
+	args                    []*Ty
+}
+
 type gen struct {
 	t    *tape.Tape
 	w    *World
 	p    Profile
 	reg  map[string]string // typeKey -> suffix already used for it
 	used map[string]string // plugin+suffix -> exactKey
+	prev []prevCall
 	nid  int
 }
 
@@ -62,6 +68,9 @@ func Generate(t *tape.Tape, p Profile) *World {
 		if c := g.genCall(""); c != nil {
 			w.Calls = append(w.Calls, c)
 		}
+	}
+	if p.NamedComposite && t.Chance(1, 3) {
+		g.assignableCluster()
 	}
 	if len(w.Calls) == 0 {
 		// always at least one call: the simplest one
@@ -316,15 +325,31 @@ func (g *gen) finish(c *Call, pkg string) *Call {
 			return nil
 		}
 	}
-	key := pkg + "/" + w.typeKey(c)
 	exact := w.exactKey(c)
-	if sfx, ok := g.reg[key]; ok {
-		// same plugin and mutually assignable arguments: must be the very
-		// same types and then carries the very same name
-		if g.used[pkg+"/"+c.Plugin+sfx] != exact {
+	sfxFound, found := "", false
+	for _, prev := range g.prev {
+		if prev.pkg != pkg || prev.plugin != c.Plugin || len(prev.args) != len(c.Args) {
+			continue
+		}
+		if prev.exact == exact {
+			sfxFound, found = prev.sfx, true
+			break
+		}
+		// mutually assignable but not identical argument lists are, for
+		// goderive, the same function: never give them two user names
+		all := true
+		for i, a := range c.Args {
+			if !w.assignable(a.Ty, prev.args[i]) {
+				all = false
+				break
+			}
+		}
+		if all {
 			return nil
 		}
-		c.Suffix = sfx
+	}
+	if found {
+		c.Suffix = sfxFound
 	} else {
 		sfx := ""
 		if n := t.Intn(4); n > 0 || g.taken(pkg, c.Plugin, "") {
@@ -334,8 +359,12 @@ func (g *gen) finish(c *Call, pkg string) *Call {
 			sfx = fmt.Sprintf("U%d", g.id())
 		}
 		c.Suffix = sfx
-		g.reg[key] = sfx
 		g.used[pkg+"/"+c.Plugin+sfx] = exact
+		var tys []*Ty
+		for _, a := range c.Args {
+			tys = append(tys, a.Ty)
+		}
+		g.prev = append(g.prev, prevCall{pkg, c.Plugin, exact, sfx, tys})
 	}
 	c.ID = g.id()
 	if c.File == 0 {
@@ -680,4 +709,52 @@ func (g *gen) genUserFunc() {
 	}
 	text := fmt.Sprintf("func %s(a, b complex64) complex64 { return a - b }\n\nvar _ = %s(1, 2)\n", n, n)
 	w.UserFuncs = append(w.UserFuncs, UserFunc{Pkg: pkg, Name: n, Text: text, File: t.Intn(w.NFiles)})
+}
+
+// assignableCluster adds two (or three) named types with one underlying
+// composite type, a struct with a field of that unnamed type, and calls of
+// one plugin on all of them: the field helper can then be served by any of
+// the named functions (mutually assignable argument lists).
+func (g *gen) assignableCluster() {
+	w, t := g.w, g.t
+	under := []*Ty{Slice(Basic("int")), Map(Basic("string"), Basic("int")), Slice(Basic("string")), Slice(Slice(Basic("int")))}[t.Intn(4)]
+	n := 2 + t.Intn(2)
+	base := len(w.Decls)
+	var names []*Ty
+	for i := 0; i < n; i++ {
+		d := &Decl{Name: fmt.Sprintf("A%d", base+i), Under: under, File: t.Intn(w.NFiles)}
+		w.Decls = append(w.Decls, d)
+		names = append(names, Named("", d.Name))
+	}
+	sd := &Decl{Name: fmt.Sprintf("S%d", base+n), Struct: true, File: t.Intn(w.NFiles), Fields: []Field{{Name: "F0", Ty: under}}}
+	if t.Bool() {
+		sd.Fields = append(sd.Fields, Field{Name: "F1", Ty: Basic("int")})
+	}
+	w.Decls = append(w.Decls, sd)
+	plugin := []string{"equal", "compare", "hash", "clone", "deepcopy"}[t.Intn(5)]
+	// order of the calls matters for which names exist when the helper is requested
+	order := t.Intn(3)
+	var calls []*Call
+	for _, nt := range names {
+		if c := g.simple(plugin, nt); c != nil {
+			calls = append(calls, c)
+		}
+	}
+	sc := g.simple(plugin, Ptr(Named("", sd.Name)))
+	switch order {
+	case 0:
+		calls = append(calls, sc)
+	case 1:
+		calls = append([]*Call{sc}, calls...)
+	default:
+		calls = append(calls[:1], append([]*Call{sc}, calls[1:]...)...)
+	}
+	for _, c := range calls {
+		if c == nil {
+			continue
+		}
+		if f := g.finish(c, ""); f != nil {
+			w.Calls = append(w.Calls, f)
+		}
+	}
 }
